@@ -108,6 +108,9 @@ def main(tier: str, seed: int) -> int:
                 index.append((label, sd, vname, bi, len(specs) - 1))
             chk.add_case({"scenario": label, "seed": sd, "actions": acts[:12]})
     outs = pairs.run_workers(specs)
+    for o, sp in zip(outs, specs):
+        if sp.get("hashseed", 0) == 0 and not sp.get("profile") and (o["raised"] or len(o["steps"]) < 2 * (steps + 1)):
+            raise tlc.TLCError(f"vacuous base run ({len(o['steps'])} positions, raised={o['raised']})")
     traces = []
     for label, sd, vname, bi, vi in index:
         traces.append(pairs.pair_trace(outs[bi], outs[vi], meta={"scenario": label, "seed": sd, "variant": vname}))
